@@ -215,6 +215,11 @@ pub fn minimise(
             let mut c = cur.clone();
             c.recorder.extras.phantom.clear();
             progress |= try_it(c, &mut cur, budget);
+            if cur.recorder.cut_last_frame > 1 {
+                let mut c = cur.clone();
+                c.recorder.cut_last_frame = 1;
+                progress |= try_it(c, &mut cur, budget);
+            }
             if cur.recorder.idle {
                 let mut c = cur.clone();
                 c.recorder.idle = false;
